@@ -253,6 +253,36 @@ def r015(cg, rep, which):
             report(rep, rule, key, pack, check_cast(frm, to), 'conversion %s -> %s' % (frm, to), where)
 
 
+def r_return_conversion(P, rep):
+    """R01.4: the operand of `return` is converted to the function's return type (unless it is an aggregate)"""
+    from .c03 import explore_stmt
+    pu, tm, it, res = explore_stmt(P)
+    where = 'parse.c:%d' % pu.fn('stmt').line
+    NK = {v: k for k, v in pu.enums.items() if k.startswith('ND_')}
+    n = 0
+    for ctx, out in res:
+        if out[0] != 'ret':
+            continue
+        node = it.settle(out[1]) if isinstance(out[1], View) else out[1]
+        if not isinstance(node, Obj) or NK.get(node.fields.get('kind')) != 'ND_RETURN':
+            continue
+        lhs = node.fields.get('lhs')
+        if lhs is None or (isinstance(lhs, int) and lhs == 0):
+            continue     # return;
+        casts = [e for e in ctx.events if e[0] == 'call' and e[1] == 'new_cast']
+        exprs = [e for e in ctx.events if e[0] == 'call' and e[1] == 'expr']
+        aggregate = any('return_ty.kind' in t and ('TY_STRUCT' in t or 'TY_UNION' in t) and t.count(',') <= 1 and 'TY_VOID' not in t for t in ctx.trail)
+        n += 1
+        if aggregate:
+            continue
+        ok = len(casts) == 1 and len(exprs) == 1 and (casts[0][2][0] is exprs[0][4]) and 'return_ty' in repr(getattr(it.settle(casts[0][2][1]) if isinstance(casts[0][2][1], View) else casts[0][2][1], 'label', casts[0][2][1])) \
+            and (lhs is casts[0][4])
+        rep.ob('R01.4', 'parse.c:stmt:return-value-converted-to-return-type', ok,
+               'the operand of a return statement is stored %s conversion to the function\'s return type (C11 6.8.6.4p3)' % ('after a wrong' if casts else 'without'), where=where, facts={'path': ctx.trail[-6:]})
+    if n == 0:
+        rep.undecided('R01.4', 'parse.c:stmt:return', 'no return-with-value path found', where=where)
+
+
 def run(P, rep, tier):
     cg = wrap(CG(P))
     rep.explanation = ('Per-operator translation validation at the term level: for each integer node kind and operand type class the code generator is abstractly '
@@ -272,3 +302,10 @@ def run(P, rep, tier):
     from ..lib_types import r_pointer_scaling
     rep.rule('R01.3', 'pointer arithmetic: p+n, n+p, p-n scale n by the element size as a 64-bit quantity and keep the pointer type; p-q is the signed 64-bit byte difference divided by the element size', floor=9)
     r_pointer_scaling(P, rep, 'R01.3')
+    from ..lib_exprparse import r_operator_table
+    rep.rule('R01.9', 'operator table and precedence ladder of the expression parser: every operator token builds the node kind C11 6.5 assigns to it with the operands in source order (> and >= as swapped < and <=), binary levels are left-associative and take their operands from the next-higher level, assignment is right-associative and every op= goes through the compound-assignment rewrite of the same operator', floor=45)
+    r_operator_table(P, rep, 'R01.9')
+    from ..lib_exprparse import r_conversion_sites
+    rep.rule('R01.4', 'implicit conversions at use sites: each argument of a prototyped call is converted to the type of its own parameter, float arguments passed through ... are promoted to double, postfix ++/-- is (T)((A += k) - k)', floor=3)
+    r_conversion_sites(P, rep, 'R01.4')
+    r_return_conversion(P, rep)
